@@ -4,6 +4,8 @@ R1: FlushNotifier.tla (registrants registering / parking / unregistering against
     the target slice) with the latched clauses NoSendOnClosed / AtMostOnce / ParkedGetsIt; the deviation "copy the slice header under the
     lock, send after releasing it" must be refuted.
 R2: FlushNotifierSeq.tla: every sequential history up to the bound with the observation each step must produce.
+    ChangeGauge.tla: prev / pending of pkg/stats/change_gauge.go against the doc comment's "sent for 22 flush intervals" on every history
+    of set v / send k (k around the repeat count), each replayed into the real ChangeGauge.
 S1: harness notif replays them into the real notifier inside NullStatser / LoggingStatser / InternalStatser (and their tagged views) in a
     synctest bubble; a concurrent run on the real scheduler is judged by the clauses that do not need the interleaving.
 Not in MANIFEST.json (the property list is fixed); run with ./check X04 --tier quick|thorough."""
@@ -19,6 +21,12 @@ CHECK_DEADLOCK FALSE
 WATCH = """SPECIFICATION Spec
 CONSTANTS Cap = %d MaxLen = %d
 INVARIANTS AlwaysASample
+CONSTRAINT Emit
+CHECK_DEADLOCK FALSE
+"""
+CG = """SPECIFICATION Spec
+CONSTANTS MaxLen = %d Repeat = 22
+INVARIANT IAgreesWithP
 CONSTRAINT Emit
 CHECK_DEADLOCK FALSE
 """
@@ -71,6 +79,21 @@ def run(ctx):
         fails += r["failures"]
         for k, v in r["named"].items():
             named[k] = named.get(k, 0) + v
+    # the change gauge (parser.bad_lines_seen, the backends' retried-batch counters): I = P on every history, every history replayed
+    cfg = ctx.write_cfg("ChangeGauge.cfg", CG % (4 if quick else 5))
+    cases = ctx.path("cg.ndjson")
+    ctx.tlc_generate("ChangeGauge", cfg, cases, label="change gauge", timeout=3000)
+    out = ctx.path("out-cg.json")
+    rc, txt, wall = ctx.go_test("notif", run="TestChangeGauge", env={"VERIF_CASES": cases, "VERIF_OUT": out}, timeout=3000)
+    if rc != 0 or not os.path.exists(out):
+        raise vlib.MachineryError("harness notif (change gauge) failed (rc=%d)\n%s" % (rc, txt[-3000:]))
+    os.unlink(cases)
+    r = vlib.read_results(out)
+    ctx.cov["traces_validated_against_impl"] += r["evaluations"]
+    ctx.cov["evaluations"] += r["evaluations"]
+    fails += r["failures"]
+    for k, v in r["named"].items():
+        named[k] = named.get(k, 0) + v
     out = ctx.path("out-conc.json")
     rc, txt, wall = ctx.go_test("notif", run="TestConcurrent", env={"VERIF_OUT": out}, timeout=3000)
     if rc != 0 or not os.path.exists(out):
@@ -80,7 +103,8 @@ def run(ctx):
     fails += r["failures"]
     for k, v in r["named"].items():
         named[k] = named.get(k, 0) + v
-    for need in ("delivered", "dropped-for-a-busy-registrant", "woken-by-close", "churn-registration", "steady-received", "minimum-above-zero", "several-samples"):
+    for need in ("delivered", "dropped-for-a-busy-registrant", "woken-by-close", "churn-registration", "steady-received", "minimum-above-zero", "several-samples",
+                 "change-gauge-sent", "change-gauge-silent", "change-gauge-sent-at-the-22nd-call"):
         if named.get(need, 0) == 0 and not (ctx.violations or fails):
             raise vlib.MachineryError("vacuity: %s never reached" % need)
     ctx.cov["named_situations"] = named
